@@ -149,6 +149,10 @@ type Spec struct {
 	// import lines it needs.
 	PkgExtra        map[int]string   `json:"pkgextra,omitempty"`
 	PkgExtraImports map[int][]string `json:"pkgextraimports,omitempty"`
+	// InjConstraints gives injector file number k (Injector.File) another
+	// build constraint than the plain "wireinject" (it must still hold exactly
+	// when the wireinject tag is set, given the tags the check passes).
+	InjConstraints map[int]string `json:"injconstraints,omitempty"`
 	// InjExtra is free-form source (declarations) appended to the first
 	// injector file, so that Wire copies it into its output; InjExtraImports
 	// maps the import paths it needs to the names it uses for them.
